@@ -31,7 +31,7 @@ reg('C13',
     'reads plus depth 2 with <=1 read deviation (none / exactly one of 9 values); thorough depth 4 (<=4 atoms) plus depth 3 with <=1 deviation on 11 seeds '
     'and <=2 deviations on 5 seeds. Seeds include a coordinate-bond molecule (CN~Cu). Medium seeds (5 in quick, 15 in thorough: Kekule benzene, amino acid with a stereocentre, '
     'E/Z diene, norbornane, zwitterion, spiro ketal, quinone, allene, isonitrile, Grignard, bicyclopropyl, pyrrole Kekule form, fused cyclopropane, salt): every enabled event at '
-    'every position x read patterns (depth 1), and every pair of events (thorough, default reads). union is explored on both numbering paths (colliding and disjoint numbers) and the independence check covers the right operand as well as the left. Long random sequences of the property text are replaced by this '
+    'every position x read patterns (depth 1), and every pair of events (thorough, default reads). union is explored on both numbering paths (colliding and disjoint numbers) and the independence check covers the right operand as well as the left; every copy / substructure / union must denote the same configuration as its source on every labelled centre whose neighbourhood it retains (signs relative to ascending neighbour numbers). Long random sequences of the property text are replaced by this '
     'bounded exhaustive space.',
     'explicit-state BFS with canonical state hashing and deviation-bounded environment choices, real implementation vs rebuilt reference',
     'DESIGN.md s5 C13')
@@ -41,7 +41,7 @@ reg('C18',
     'plus hydrogens None/0..6 per element. Each state is checked against a hand-written IUPAC symbol table (symbol<->number inverse, module exports), '
     'for equal key sets of the isotope tables containing the reference isotope, computable atomic masses, agreement of the common_isotopes tables in '
     'both .pyx files with mdl_isotope-16, pack->unpack through the pyx model, a decoder of the matcher bit layout written from its layout comment '
-    '(one bit per field, inside the field window), compilable valence/saturation rule tables naming only existing elements, and Query*/Dynamic* variants. The lazily built lookup tables '
+    '(one bit per field, inside the field window; the two element words as one bit per element exactly as the comment lays them out), compilable valence/saturation rule tables naming only existing elements, and Query*/Dynamic* variants. The lazily built lookup tables '
     'are explored over the order of first use: a fresh interpreter per entry point used first (Element / element class / instance / query / dynamic / reader) x every number 1..118.',
     'Trusted: the symbol list in vf/props/c18.py; the .pyx sources are executed as a mechanically derived Python model with C integer semantics '
     '(no Cython here). 19 elements whose reference isotope is missing from their tables are recorded as known findings keyed by element.',
@@ -66,7 +66,7 @@ reg('C17',
     'hash sets, bit sets, fingerprints and fragment dictionaries. The hash sets are compared with an independent enumerator of simple paths '
     '(canonical direction, multiplicity cap) and an iterated-neighbourhood hasher over the (min,max) 1..6 x bit-pairs 0..5 grid; folded bits with '
     'the documented {(h >> i*log2 len) & (len-1), i < active bits} over lengths 2^4..2^12 x active bits 1..4; all outputs must be equal across '
-    'numberings and insertion orders.',
+    'numberings and insertion orders. Call history: between two evaluations of six fingerprint calls the molecule is edited in place (11 operations); the second value must equal the value on a fresh copy.',
     'Trusted: vf/oracle/paths.py; built-in tuple hash as the documented hash. Fragment SMILES *texts* are compared modulo aromatic case, H counts '
     'and direction for the equality-across-numberings clause (strict difference = recorded known finding C17-linear-smiles-text); neighbourhood '
     'texts that differ only in stereo marks fall under C01 exclusion (i) and are counted as out of domain.',
@@ -96,7 +96,7 @@ reg('C19',
     'queries) digests of canonical strings, atom orderings, ring sets, components, fingerprints and fragment dictionaries, ordered match lists, '
     'pack bytes, atom labels and the results of canonicalize/standardize/standardize_charges/neutralize/kekule/thiele/explicify (object vs its '
     'copy vs after flush vs a cold-cache copy) must coincide over the whole grid; a scoped search sits between the evaluations so that anything it leaves in a memo is seen by the next '
-    'evaluation. Digests include dict and set iteration order.',
+    'evaluation; ring data is read first in the reversed read order; one more evaluation follows a transaction that edits, reads everything and then fails. Digests include dict and set iteration order.',
     'Trusted: five fixed seeds stand for all hash seeds; hash(mol) is excluded (string hashing is seed dependent by design). pack bytes come from '
     'the pyx model. A violation is replayed by re-running the two grid cells involved.',
     'complete enumeration of a configuration grid (hash seed x process x order x cached/uncached/copy) on the real implementation',
@@ -152,7 +152,7 @@ reg('C09',
     'The bit layout is explored field by field and pairwise: query element 1..118 (plus element lists, any-atom, any-metal) x molecule element 1..118; '
     'every element with (unspecified + every tabulated isotope)^2; charge -4..4 x radical on both sides; hydrogen specs (singletons, pairs) x 0..4/None; '
     'hybridisation subsets x 1..4; neighbour and heteroatom specs (singletons, pairs in 0..14) x 0..14 real stars; ring-size specs x real rings 3..66, 70 '
-    'and spiro pairs; every pair of six fields at {min, interior, max} against the full boundary product on the molecule side; ring closures landing on '
+    'and spiro pairs; every pair of six fields at {min, interior, max} against the full boundary product on the molecule side; the scalar and count fields also through any-atom, element-list and any-metal query atoms (each kind has its own encoder branch); ring closures landing on '
     'every element; then SMARTS of C07/C08/C19 x D(<=5,1), cage/metallacycle targets and the corpus stride, with and without searching scope. For each '
     '(query, molecule) the mapping set of the bit-mask path (model of _isomorphism.pyx fed by the real encoders) must equal that of the pure-Python matcher.',
     'Trusted: vf/pyxmodel as the semantics of _isomorphism.pyx (packed structs, pointer casts, 64-bit masks; out-of-bounds and uninitialised reads are '
@@ -173,7 +173,8 @@ reg('C08',
     'texts, and every (partly) labelled variant of 15 base molecules (ring-opening centres, fused rings, dienes, tri/tetra-substituted and ring double bonds) in '
     'every RDKit spelling (every root x 3 numberings) are used as SMARTS against every variant as target; the mapping count must equal chirality-aware RDKit '
     'matching of the SMILES reading of the same text. Query atoms built through the API: 6 kinds x 5 attributes x every value (incl. 0) as int / tuple / list, '
-    'by constructor keyword and by assignment, against the same attribute oracle.',
+    'by constructor keyword and by assignment, against the same attribute oracle; query atoms copied from molecule atoms (QueryElement.from_atom with each optional attribute, '
+    'QueryContainer.add_atom(atom)) for every atom of a sampled scope incl. radicals, isotopes and charges.',
     'Trusted: vf/oracle/cycles.py, vf/oracle/valence.py and the hand-written non-metal list. Ring-size primitives are judged only on molecules whose '
     'minimum cycle basis is unique (others counted as out of domain). Stereo marks: RDKit is the judge; a chiral FIRST atom with an implicit hydrogen has no '
     'documented convention in the SMARTS subset and is counted as out of domain; three-neighbour centres are read as "unnamed neighbour last"; allene marks are '
@@ -189,7 +190,8 @@ reg('C01',
     'atoms, <=1 deviation above), RDKit spellings over renumberings x roots x aromatic/Kekule, and every "which derived value is read first" order. '
     'Each description must give the same canonical string, hash and == (after kekule+thiele normalisation where the text came from the other toolkit).',
     'The two exclusions of the property are recognised independently on the input graph (vf/oracle/symmetry.py: orbits of the stereo-free automorphism '
-    'group): cases inside them are executed and counted as out of domain, never reported. Three monocyclic alternating annulenes and the writer placing a stereo double bond on a ring-closure digit inside a conjugated diene are known findings. '
+    'group; exclusion (ii) = ring system with >= 3 rings and equivalent branching atoms whose skeleton is polyhedral (3-connected after suppressing two-coordinate atoms: prism, cube, '
+    'adamantane, coronene) or that holds a saturated ring atom; planar conjugated systems such as triphenylene or biphenylene are in the domain): cases inside them are executed and counted as out of domain, never reported. Three monocyclic alternating annulenes and the writer placing a stereo double bond on a ring-closure digit inside a conjugated diene are known findings. '
     'Molecules above the small scope are covered by the text families and corpus only.',
     'bounded exhaustive enumeration of descriptions incl. stateless choice-point exploration of the random-order writer (deviation bounded)',
     'DESIGN.md s3.4, s5 C01')
@@ -252,7 +254,9 @@ reg('C14',
     'inputs give their documented outputs; tautomers conserve composition and are duplicate free. Rule instances are additionally run with gapped atom numbers '
     '(2n+5) and an azole/azolium ring scan (every N/O/S placement in five-rings x N-substituent x charge) checks the charge rules on aromatic rings. Equivariance is also run on a '
     'molecule REBUILT with reversed insertion order (remap keeps the storage order). Every tautomer is judged per atom: hydrogen count >= 0 and equal to the count its bonds imply '
-    '(element-table re-derivation on the Kekule form), over a tautomer-stereo family (labels on or next to migrating double bonds) and ring-carbonyl / quinone inputs.',
+    '(element-table re-derivation on the Kekule form), over a tautomer-stereo family (labels on or next to migrating double bonds) and ring-carbonyl / quinone inputs. Every memo incl. the '
+    'fingerprints is populated before each operation and compared with a recomputed copy afterwards. For inputs with constitutionally equivalent atoms equivariance is required up to an '
+    'automorphism of the input (outputs are one molecule); cyclopentadienide-type anions incl. benzo-fused ones are in the special cases.',
     'Relational oracle (no reference standardiser). Return values are not part of the idempotence statement. Four classes are known findings keyed by '
     'call site or input (metal amide -> dative rule adds hydrogens; azoxy-type two-pass rules; eta5-Cp numbering; one tautomer KeyError).',
     'bounded exhaustive enumeration of molecules x operations x numberings on the real implementation, relational oracle',
@@ -272,7 +276,7 @@ reg('C16',
     'matches the patterns - the set of reported reactions must equal the edit model applied to every combination of matches of every assignment of molecules to '
     'patterns, surviving atoms keep numbers and attributes, untouched stereocentres keep their configuration; colliding numbers, reversed order and a spectator '
     'give the same set; a collection call equals the union of its reactors. Frame condition for double bonds: a labelled double bond whose ends and substituents survive unchanged keeps '
-    'label and geometry (templates naming one or both alkene carbons).',
+    'label and geometry (templates naming one or both alkene carbons). On aromatic N-H heterocycles in aromatic form, atoms the template does not name keep their hydrogen count and ring bonds their order, with and without the aromatic post-processing.',
     'Trusted: the edit model in vf/props/c16.py; matches come from the library matcher (C07/C08). Hydrogen counts of products are not modelled. The '
     'products of aromatic reactants are compared after the documented kekule/thiele normalisation. Multi-stage (one_shot=False) mode of the prepared collections is '
     'covered by the relational stage only.',
